@@ -53,7 +53,7 @@ def replay_state(job):
     # behaviour: a separable quadratic with distinct targets, uncertainties and fixed values
     del calls[:]
     m.minimize()
-    pv = np.asarray(m.parameter_values, dtype=float)
+    pv = np.array(m.parameter_values, dtype=float)
     for i in range(1, n + 1):
         e = fixed_vals[i - 1] if i in fixed else targets[i - 1]
         tol = 0.0 if i in fixed else 0.02 * scales[i - 1]
@@ -82,7 +82,7 @@ def replay_state(job):
             if not np.allclose([-asym[i - 1][0], asym[i - 1][1]], [e, e], rtol=0.04, atol=1e-6):
                 viol("Definitions: asymmetric uncertainty of parameter %d (cost rise of 1 along its profile)" % i, dict(expected=e, actual=asym[i - 1].tolist()))
                 return issues
-    pv2 = np.asarray(m.parameter_values, dtype=float)
+    pv2 = np.array(m.parameter_values, dtype=float)
     if np.any(np.abs(pv2 - pv) > 0.02 * np.array(scales)):
         viol("asymmetric errors moved the parameters", dict(before=pv.tolist(), after=pv2.tolist()))
     return issues
